@@ -58,7 +58,12 @@ def cases(tier, seed):
 STAMPS = (None, lambda t: t - 999999.0, lambda t: 0.0, lambda t: 3.0e9 - t, lambda t: (t * 1e6) % 65536)
 
 
-def make(ident, present=True, resp_filter=None, stamp=0):
+# LssMaster.RESPONSE_TIMEOUT as set by the application: default, 0 (enough for an interface that delivers the reply inside
+# send), tiny, large; on the instance
+TIMEOUTS = (None, 0, 0.001, 30.0)
+
+
+def make(ident, present=True, resp_filter=None, stamp=0, timeout=None):
     import canopen
     simenv.new_world()
     bus = simenv.SimBus("inline")
@@ -66,6 +71,8 @@ def make(ident, present=True, resp_filter=None, stamp=0):
     bus.reuse_rx = bool(stamp % 2)       # ... and may re-use its receive buffer
     net = canopen.Network()
     bus.attach(net, "master")
+    if timeout is not None:
+        net.lss.RESPONSE_TIMEOUT = timeout
     slave = LssSlave(ident, present=present)
     if resp_filter is None:
         bus.add_device(slave.on_frame, "slave")
@@ -95,7 +102,8 @@ def run_ident(case, st):
     for v in vals:
         ident = [bg] * 4
         ident[part] = v
-        net, slave, bus = make(ident, stamp=VALS.index(v) if v in VALS else 0)
+        net, slave, bus = make(ident, stamp=VALS.index(v) if v in VALS else 0,
+                               timeout=TIMEOUTS[(VALS.index(v) // 5) % len(TIMEOUTS)] if v in VALS else None)
         st.evaluations += 1
         st.nontrivial.add((part, v, bg))
         rc = dict(case, value=v)
@@ -224,7 +232,8 @@ def run_services(case, st):
                 if fault == "wrong-cs":
                     return [bytes([r[0] ^ 0x20]) + r[1:]]
                 return [bytes([r[0], fault[1]]) + r[2:]]
-            net, slave, bus = make(ident, resp_filter=flt, stamp=len(calls) + (arg or 0))
+            net, slave, bus = make(ident, resp_filter=flt, stamp=len(calls) + (arg or 0),
+                                   timeout=TIMEOUTS[((arg or 0) + len(name)) % len(TIMEOUTS)])
             if name != "selective-match":
                 net.lss.send_switch_state_global(net.lss.CONFIGURATION_STATE)
             st.evaluations += 1
